@@ -28,7 +28,7 @@ func runC08(c *Ctx) {
 	rw, r, route, data := paramOf(f, 0), paramOf(f, 1), paramOf(f, 3), paramOf(f, 4)
 	_ = r
 	rfs := callsIn(f, "(*rt/middleware.Context).ResponseFormat")
-	c.obF("R08.2", f, "negotiates-once", len(rfs) == 1, "Respond negotiates the response format once", fmt.Sprintf("%d calls", len(rfs)))
+	c.obRF("R08.2", f, "negotiates-once", len(rfs) == 1, "Respond negotiates the response format once", fmt.Sprintf("%d calls", len(rfs)))
 	if len(rfs) != 1 {
 		return
 	}
@@ -87,7 +87,7 @@ func runC08(c *Ctx) {
 			ctSet = ci
 		}
 	}
-	c.obF("R08.2", f, "sets-negotiated-content-type", ctSet != nil, "Respond announces the negotiated format as Content-Type", "no Header().Set(Content-Type, <negotiated format>)")
+	c.obRF("R08.2", f, "sets-negotiated-content-type", ctSet != nil, "Respond announces the negotiated format as Content-Type", "no Header().Set(Content-Type, <negotiated format>)")
 	isWrite := func(name string) bool {
 		return name == "(net/http.ResponseWriter).WriteHeader" || name == "(net/http.ResponseWriter).Write" ||
 			name == "(rt.Producer).Produce" || name == "(rt/middleware.Responder).WriteResponse"
@@ -123,10 +123,23 @@ func runC08(c *Ctx) {
 		ok := codeV != nil
 		if ok {
 			ok, _ = allOrigins(a[0], oIsValue(codeV))
+			if phi, isPhi := a[0].(*ssa.Phi); !ok && isPhi {
+				// one status variable for both cases: the declared status, or the constant 200 on the edges without an operation
+				ok = true
+				for i, e := range phi.Edges {
+					if okE, _ := allOrigins(e, oIsValue(codeV)); okE {
+						continue
+					}
+					k, isK := constInt(e)
+					if !isK || k != 200 || !edgeGuarded(phi.Block().Preds[i], phi.Block(), nil, anyFact(routeNil, opNil)) {
+						ok = false
+					}
+				}
+			}
 		}
 		c.obI("R08.2", ci, "status-from-operation", ok, "for a routed operation the status written is the operation's declared success status", "status "+describe(a[0]))
 	}
-	c.obF("R08.2", f, "writes-status", nWH >= 2 && len(succ) == 1, "Respond writes a status on the success branches", "")
+	c.obRF("R08.2", f, "writes-status", nWH >= 1 && len(succ) == 1, "Respond writes a status on the success branches", "")
 
 	// R08.3 no body for HEAD / 204
 	notHead := factEqString(vFieldLoadO("net/http.Request", "Method"), "HEAD", false)
@@ -135,7 +148,8 @@ func runC08(c *Ctx) {
 		nProd++
 		c.obI("R08.3", ci, "no-body-for-HEAD", guardedBy(ci, nil, notHead), "no producer writes a body for a HEAD request", "Produce reachable with r.Method == HEAD")
 		if codeV != nil && pathExists(f, succ[0], ci, nil, nil) {
-			not204 := factEqInt(vOrigins(oIsValue(codeV)), 204, false)
+			// (the status variable may also hold the constant 200 of the no-operation case)
+			not204 := factEqInt(vOrigins(oIsValue(codeV), func(o Origin) bool { k, isK := constInt(o.V); return isK && k != 204 }), 204, false)
 			c.obI("R08.3", ci, "no-body-for-204", guardedBy(ci, succ[0], not204), "no producer writes a body under a 204 status", "Produce reachable with code == 204")
 		}
 		_, a := callArgs(ci.Common())
@@ -146,7 +160,7 @@ func runC08(c *Ctx) {
 		okP, bad := allOrigins(ci.Common().Value, producerOrigin(isNormFormat, isDefProd)...)
 		c.obI("R08.1", ci, "producer-for-negotiated-format", okP, "the body is written by the producer registered for the normalised negotiated format (or the default-producer fallback)", "origin "+describeOrigin(bad))
 	}
-	c.min("R08.3", 5)
+	c.min("R08.3", 3)
 
 	// R08.4 responder
 	for _, ci := range callsIn(f, "(rt/middleware.Responder).WriteResponse") {
@@ -166,7 +180,7 @@ func runC08(c *Ctx) {
 			errTA = ta
 		}
 	}
-	c.obF("R08.5", f, "error-branch", errTA != nil, "Respond recognises an error result", "")
+	c.obRF("R08.5", f, "error-branch", errTA != nil, "Respond recognises an error result", "")
 	if errTA != nil {
 		errV := extractOf(errTA, 0)
 		isJSONSet := func(in ssa.Instruction) bool {
@@ -202,7 +216,7 @@ func runC08(c *Ctx) {
 			okW, _ := allOrigins(cc.Args[0], oIsValue(rw))
 			c.obI("R08.5", ci, "error-responder-args", okW, "the API's error responder receives the response writer and the error", "")
 		}
-		c.obF("R08.5", f, "invokes-error-responder", nDyn >= 1, "an error result is handed to the API's error responder", "no invocation of ServeErrorFor(..)(rw, r, err) with the error found")
+		c.obRF("R08.5", f, "invokes-error-responder", nDyn >= 1, "an error result is handed to the API's error responder", "no invocation of ServeErrorFor(..)(rw, r, err) with the error found")
 		// www-authenticate
 		for _, ci := range callsIn(f, "(net/http.Header).Set") {
 			_, a := callArgs(ci.Common())
@@ -247,10 +261,10 @@ func runC08(c *Ctx) {
 				nOwn++
 				continue
 			}
-			c.obI("R08.5", st, "request-overwritten-in-place-only-by-authenticators", false, "only the authenticators of package security overwrite the request in place (to record principal context and the failed-basic-auth realm); every other stage derives a new request from the current one, so the marker reaches Respond", "a request is overwritten in place outside package security")
+			c.obD("R08.5", st, "request-overwritten-in-place-only-by-authenticators", false, "only the authenticators of package security overwrite the request in place (to record principal context and the failed-basic-auth realm); every other stage derives a new request from the current one, so the marker reaches Respond", "a request is overwritten in place outside package security")
 		}
 	}
-	c.obF("R08.5", p.Fn("rt/security.BasicAuthRealm"), "authenticators-record-in-place", nOwn >= 3, "positive instances of the in-place request overwrite rule (package security)", fmt.Sprintf("%d in-place overwrites found in package security", nOwn))
+	c.obRF("R08.5", p.Fn("rt/security.BasicAuthRealm"), "authenticators-record-in-place", nOwn >= 3, "positive instances of the in-place request overwrite rule (package security)", fmt.Sprintf("%d in-place overwrites found in package security", nOwn))
 	// realm marker in the basic authenticators
 	for _, name := range []string{"rt/security.BasicAuthRealm", "rt/security.BasicAuthRealmCtx"} {
 		outer := p.Fn(name)
@@ -285,7 +299,7 @@ func runC08(c *Ctx) {
 			}
 			c.obI("R08.5", call, "marker-is-configured-realm", okAll && hasParam, "the realm recorded for the challenge is the configured realm (the default only when none was configured)", "recorded value does not come from the realm parameter")
 		}
-		c.obF("R08.5", inner, "marks-failed-basic-auth", len(marks) >= 1, "the basic authenticator records the realm for failed attempts", "")
+		c.obRF("R08.5", inner, "marks-failed-basic-auth", len(marks) >= 1, "the basic authenticator records the realm for failed attempts", "")
 		// every exit with applies == false or with an error has installed a marker
 		isMark := func(in ssa.Instruction) bool {
 			for _, m := range marks {
@@ -316,14 +330,14 @@ func runC08(c *Ctx) {
 				nInst++
 			}
 		}
-		c.obF("R08.5", inner, "installs-marked-context", nInst >= 1, "the marked context is installed on the caller's request", "")
+		c.obRF("R08.5", inner, "installs-marked-context", nInst >= 1, "the marked context is installed on the caller's request", "")
 	}
 
 	// R08.6 errorResp
 	ew := p.Fn("(*rt/middleware.errorResp).WriteResponse")
 	whs := callsIn(ew, "(net/http.ResponseWriter).WriteHeader")
 	prs := callsIn(ew, "(rt.Producer).Produce")
-	c.obF("R08.6", ew, "status-then-payload", len(whs) >= 1 && len(prs) == 1, "errorResp writes a status and lets the producer write the payload", "")
+	c.obRF("R08.6", ew, "status-then-payload", len(whs) >= 1 && len(prs) == 1, "errorResp writes a status and lets the producer write the payload", "")
 	for _, wh := range whs {
 		_, a := callArgs(wh.Common())
 		okC, _ := allOrigins(a[0], oFieldLoad("rt/middleware.errorResp", "code", nil), func(o Origin) bool { k, ok := constInt(o.V); return ok && k == 500 })
